@@ -281,7 +281,8 @@ class C08(Check):
         "for maps with only variable keys the oracle is the statement's own formulation (original "
         "tree evaluated with the replaced names rebound); with subscript/look-up keys it is an "
         "independent simultaneous substitution on specs (outermost match first)",
-        "one map never gives the same target twice (as name and as Variable)",
+        "one map never gives the same target twice (as name and as Variable), except in the "
+        "special maps, where the expression-keyed entry is the one that counts",
         "lists/arrays are not substituted into (memoizing mapper needs hashable input)",
         "environments in which the reference evaluation raises TypeError are ill-typed for the tree "
         "(~ of a Fraction) and say nothing",
@@ -311,7 +312,7 @@ class C08(Check):
                 yield ("ts", t)
 
         self._sigmas = sigmas
-        return [("depth2", d2), ("nest2", n2), ("twins", twins),
+        return [("depth2", d2), ("nest2", n2), ("twins", twins), ("special-maps", self.gen_special),
                 ("shared-dict", self.gen_shared_dict)]
 
     # -- histories of calls that share one assignment dict ---------------------------------------
@@ -351,6 +352,40 @@ class C08(Check):
                         f"after call {step} the caller's dict is {sorted(shared)} "
                         f"(was {sorted(snapshot)})")
         return None
+
+    def gen_special(self):
+        """maps whose keys interact: a name key whose value is the aggregate of a node key (the
+        rebuilt node must not be looked up again), string keys that spell the printed form of a
+        look-up / subscript, an expression key and a keyword for the same variable"""
+        obj, a = V("obj"), V("a")
+        oa = ("Lookup", obj, ("str", "a"))
+        a0, ax = ("Subscript", a, C(0)), ("Subscript", a, X)
+        chains = [
+            (("Sum", ("tuple", ("Lookup", X, ("str", "a")), C(1))),
+             ((("var", "x"), obj), (("node", oa), C(7)))),
+            (("Sum", ("tuple", ("Subscript", X, C(0)), ("Product", ("tuple", C(100), X)))),
+             ((("name", "x"), a), (("node", a0), C(7)))),
+            (("Sum", ("tuple", ("Subscript", a, Y), ax)),
+             ((("var", "y"), X), (("node", ax), C(7)))),
+            (("Call", V("f"), ("tuple", ("Lookup", ("Lookup", X, ("str", "a")), ("str", "b")))),
+             ((("name", "x"), obj), (("node", oa), V("obj2")))),
+            (("Sum", ("tuple", ("Lookup", X, ("str", "a")), ("Lookup", Y, ("str", "a")))),
+             ((("var", "x"), Y), (("var", "y"), obj), (("node", oa), C(7)))),
+        ]
+        strings = [
+            (("Sum", ("tuple", oa, V("obj.a"), a0, V("a[0]"))),
+             ((("name", "obj.a"), C(2)), (("name", "a[0]"), C(3)))),
+            (("Product", ("tuple", ax, V("a[x]"), ("Lookup", V("obj"), ("str", "x")), V("obj.x"))),
+             ((("name", "a[x]"), C(2)), (("name", "obj.x"), C(3)), (("name", "x"), C(1)))),
+        ]
+        both = [
+            (("Sum", ("tuple", ("Product", ("tuple", C(10), X)), Y)),
+             ((("name", "x"), C(7)), (("var", "x"), Y), (("name", "y"), C(3)))),
+            (("Sum", ("tuple", ("Product", ("tuple", C(10), X)), Y)),
+             ((("name", "x"), Sum(Y, C(1))), (("var", "x"), C(5)))),
+        ]
+        for spec, sigma in [*chains, *strings, *both]:
+            yield ("one", spec, sigma)
 
     def sigmas(self, tier):
         if tier == "quick":
